@@ -30,6 +30,17 @@ func (r *reader) eof() bool {
 	return len(r.m) == 0
 }
 
+// hasAny returns true if an item for any of the tags is left.
+func (r *reader) hasAny(tags []byte) bool {
+	for _, tag := range tags {
+		if len(r.m[tag]) > 0 {
+			return true
+		}
+	}
+
+	return false
+}
+
 func (r *reader) len(tag byte) int {
 	if list := r.m[tag]; list != nil && len(list) > 0 {
 		return len(list[0])
